@@ -1748,19 +1748,28 @@ func ruleSetPublishesAll(c *Ctx) {
 	}
 	name, pos := funcName(fn), c.P.pos(fn.Pos())
 	writes := map[*ssa.BasicBlock]ssa.Instruction{}
-	for _, b := range fn.Blocks {
-		for _, in := range b.Instrs {
-			switch x := in.(type) {
-			case *ssa.Store:
-				if ia, ok := x.Addr.(*ssa.IndexAddr); ok {
-					if pt, ok := x.Val.Type().(*types.Pointer); ok && strings.HasSuffix(pt.Elem().String(), "location.Location") {
-						_ = ia
+	fns := []*ssa.Function{}
+	for g := range staticScope(fn, "location", 2) {
+		if g.Parent() == nil {
+			fns = append(fns, g)
+		}
+	}
+	sort.Slice(fns, func(i, j int) bool { return fns[i].Pos() < fns[j].Pos() })
+	for _, g := range fns {
+		for _, b := range g.Blocks {
+			for _, in := range b.Instrs {
+				switch x := in.(type) {
+				case *ssa.Store:
+					if ia, ok := x.Addr.(*ssa.IndexAddr); ok {
+						if pt, ok := x.Val.Type().(*types.Pointer); ok && strings.HasSuffix(pt.Elem().String(), "location.Location") {
+							_ = ia
+							writes[b] = in
+						}
+					}
+				case *ssa.Call:
+					if bi, ok := x.Call.Value.(*ssa.Builtin); ok && bi.Name() == "append" && strings.HasSuffix(x.Type().String(), "location.Location") {
 						writes[b] = in
 					}
-				}
-			case *ssa.Call:
-				if bi, ok := x.Call.Value.(*ssa.Builtin); ok && bi.Name() == "append" && strings.HasSuffix(x.Type().String(), "location.Location") {
-					writes[b] = in
 				}
 			}
 		}
@@ -1771,6 +1780,7 @@ func ruleSetPublishesAll(c *Ctx) {
 		if !inLoop(wb) {
 			continue
 		}
+		fn := wb.Parent()
 		// innermost header: dominates the write and is reached back from it
 		var h *ssa.BasicBlock
 		for _, cand := range fn.Blocks {
@@ -1943,4 +1953,504 @@ func ruleResponseNeverOverwritten(c *Ctx) {
 	}
 	sort.Strings(bad)
 	c.check(len(bad) == 0, "response-never-overwritten", "cache.HTTPResponse", "cache/http_response.go", fmt.Sprintf("%d places build a response; none overwrites an existing one as a whole", n), strings.Join(uniq(bad), " || "), n)
+}
+
+// ---------------------------------------------------------------- round 17
+
+// ruleVariantsNeverDropped: a stored compressed variant is only ever set,
+// never cleared (the raw body may already be gone).
+func ruleVariantsNeverDropped(c *Ctx) {
+	gz, br := c.P.StructField("cache", "HTTPResponse", "GzipBody"), c.P.StructField("cache", "HTTPResponse", "BrBody")
+	if gz == nil || br == nil {
+		c.undecided("variants-never-dropped", "cache.HTTPResponse", "-", "variant fields not found")
+		return
+	}
+	n := 0
+	bad := []string{}
+	for _, f := range c.P.allFuncs {
+		for _, b := range f.Blocks {
+			for _, in := range b.Instrs {
+				st, ok := in.(*ssa.Store)
+				if !ok {
+					continue
+				}
+				fa, ok := st.Addr.(*ssa.FieldAddr)
+				if !ok {
+					continue
+				}
+				fv := fieldOf(fa.X.Type(), fa.Field)
+				if fv != gz && fv != br {
+					continue
+				}
+				n++
+				if k, isConst := st.Val.(*ssa.Const); isConst && k.Value == nil {
+					if _, fresh := fa.X.(*ssa.Alloc); fresh {
+						continue
+					}
+					bad = append(bad, fmt.Sprintf("%s: %s clears the stored %s of a response: when the body arrived compressed the raw body is empty, so nothing is left to serve (200 with the original headers and no body, to the fetcher, the waiters, later hits and the persisted record)", c.P.pos(st.Pos()), funcName(f), fv.Name()))
+				}
+			}
+		}
+	}
+	if n < 2 {
+		c.undecided("variants-never-dropped", "cache.HTTPResponse", "-", fmt.Sprintf("only %d stores to the variant fields found", n))
+		return
+	}
+	sort.Strings(bad)
+	c.check(len(bad) == 0, "variants-never-dropped", "cache.HTTPResponse", "cache/http_response.go", fmt.Sprintf("%d stores to the gzip/br variants of a response, none clears one", n), strings.Join(uniq(bad), " || "), n)
+}
+
+// rulePeriodKept: the marker's default period replaces the configured one only
+// when that is <= 0, and the converter hands the configured seconds on as they are.
+func rulePeriodKept(c *Ctx) {
+	fn := c.P.Method("cache", "httpCache", "HitForPass")
+	if fn == nil || len(fn.Params) < 2 {
+		c.undecided("period-kept", "httpCache.HitForPass", "-", "not found")
+		return
+	}
+	name, pos := funcName(fn), c.P.pos(fn.Pos())
+	prm := &Term{Op: "sym", Name: "p:" + fn.Params[1].Name(), Type: fn.Params[1].Type()}
+	n, stores := 0, 0
+	bad := []string{}
+	sim := c.P.Simulate(fn, SimConfig{}, func(pr *PathResult) {
+		n++
+		for _, e := range pr.Events {
+			if e.Kind != "store" || e.Addr.Op != "fa" || e.Addr.Name != "expiredAt" {
+				continue
+			}
+			stores++
+			uses := e.Val.contains(func(x *Term) bool { return x.Key() == prm.Key() })
+			if uses {
+				continue
+			}
+			iv := pr.Facts.Interval(prm)
+			if iv.Hi == nil || iv.Hi.Sign() > 0 {
+				bad = append(bad, fmt.Sprintf("the marker's deadline is %s, without the period the caller passed, on a path where that period can be positive (%s): a configured period is replaced by the default and the key is re-probed, with the burst queued behind the probe, long before the configured period ends, on path [%s]", prettyTerm(e.Val), iv, condString(pr.Conds)))
+			}
+		}
+	})
+	if sim.Overflow || stores == 0 {
+		c.undecided("period-kept", name, pos, "no store of the marker's deadline recognised")
+		return
+	}
+	// the converter: the option's period is the parsed duration in seconds, on every path
+	conv := c.P.Func("cache", "convertConfigs")
+	fld := c.P.StructField("cache", "DispatcherOption", "HitForPass")
+	convStores := 0
+	if conv != nil && fld != nil {
+		for _, b := range conv.Blocks {
+			for _, in := range b.Instrs {
+				st, ok := in.(*ssa.Store)
+				if !ok {
+					continue
+				}
+				fa, ok := st.Addr.(*ssa.FieldAddr)
+				if !ok || fieldOf(fa.X.Type(), fa.Field) != fld {
+					continue
+				}
+				convStores++
+				v := stripConv(st.Val)
+				if _, isPhi := v.(*ssa.Phi); isPhi {
+					bad = append(bad, fmt.Sprintf("%s: the converter stores a period chosen among several values: a substitute put in here (1 for 'less than a second', say) also replaces the unset period 0, which is what selects the marker's default", c.P.pos(st.Pos())))
+				}
+				if _, isConst := v.(*ssa.Const); isConst {
+					bad = append(bad, fmt.Sprintf("%s: the converter stores a constant period", c.P.pos(st.Pos())))
+				}
+			}
+		}
+	}
+	if convStores == 0 {
+		c.undecided("period-kept", name, pos, "the converter's store of the period was not found")
+		return
+	}
+	c.check(len(bad) == 0, "period-kept", name, pos, fmt.Sprintf("%d paths, %d stores of the deadline: the default is used only where the period passed is known to be <= 0; the converter hands on the parsed seconds as they are", n, stores), strings.Join(uniq(bad), " || "), n)
+}
+
+// ruleRedisOptionsUnconditional: what the store URL says (db, credentials,
+// master) reaches the redis client whatever the other parameters are.
+func ruleRedisOptionsUnconditional(c *Ctx) {
+	want := map[string]bool{"Addrs": false, "DB": false, "Password": false, "MasterName": false}
+	n := 0
+	bad := []string{}
+	for _, f := range c.P.allFuncs {
+		if !inPkg(f, "store") {
+			continue
+		}
+		for _, b := range f.Blocks {
+			for _, in := range b.Instrs {
+				call, ok := in.(*ssa.Call)
+				if !ok {
+					continue
+				}
+				sc := call.Call.StaticCallee()
+				if sc == nil || sc.Pkg == nil || !strings.Contains(sc.Pkg.Pkg.Path(), "go-redis") || !strings.HasPrefix(sc.Name(), "New") || len(call.Call.Args) != 1 {
+					continue
+				}
+				al, ok := stripConv(call.Call.Args[0]).(*ssa.Alloc)
+				if !ok {
+					// options built by a helper of the package: judge them where they are built
+					if hc, isCall := stripConv(call.Call.Args[0]).(*ssa.Call); isCall {
+						if g := hc.Call.StaticCallee(); g != nil && inPkg(g, "store") && g.Blocks != nil {
+							for _, gb := range g.Blocks {
+								if ret, isRet := gb.Instrs[len(gb.Instrs)-1].(*ssa.Return); isRet && len(ret.Results) >= 1 {
+									if ra, isAlloc := stripConv(ret.Results[0]).(*ssa.Alloc); isAlloc {
+										al, ok, b = ra, true, gb
+									}
+								}
+							}
+						}
+					}
+				}
+				if !ok {
+					continue
+				}
+				n++
+				for _, r := range *al.Referrers() {
+					fa, ok := r.(*ssa.FieldAddr)
+					if !ok {
+						continue
+					}
+					fv := fieldOf(fa.X.Type(), fa.Field)
+					for _, rr := range *fa.Referrers() {
+						st, ok := rr.(*ssa.Store)
+						if !ok || st.Addr != ssa.Value(fa) {
+							continue
+						}
+						if _, tracked := want[fv.Name()]; tracked {
+							want[fv.Name()] = true
+						}
+						if !(st.Block() == b || st.Block().Dominates(b)) {
+							bad = append(bad, fmt.Sprintf("%s: redis option %s is set on some paths only: a store URL that names it is honoured or ignored depending on its other parameters (two deployments kept apart by ?db= on one sentinel-managed redis then share records)", c.P.pos(st.Pos()), fv.Name()))
+						}
+					}
+				}
+			}
+		}
+	}
+	if n == 0 {
+		c.undecided("redis-options-unconditional", "newRedisStore", "-", "no redis client constructor call with options built on the spot")
+		return
+	}
+	for k, seen := range want {
+		if !seen {
+			bad = append(bad, "redis option "+k+" is never set from the store URL")
+		}
+	}
+	sort.Strings(bad)
+	c.check(len(bad) == 0, "redis-options-unconditional", "newRedisStore", "store/redis.go", "address list, db, password and master name are set on every path that builds the redis client", strings.Join(uniq(bad), " || "), n+len(want))
+}
+
+// ruleDecodersWholeInput: the record decoders use no stream decoder that stops
+// after the first value (trailing garbage would be accepted).
+func ruleDecodersWholeInput(c *Ctx) {
+	scope := map[*ssa.Function]bool{}
+	for _, typ := range []string{"httpCache", "HTTPResponse"} {
+		if f := c.P.Method("cache", typ, "FromBytes"); f != nil {
+			for g := range staticScope(f, "cache", 3) {
+				scope[g] = true
+			}
+		}
+	}
+	if len(scope) < 4 {
+		c.undecided("decoders-whole-input", "decoders", "-", "decoders not found")
+		return
+	}
+	n, whole := 0, 0
+	bad := []string{}
+	for f := range scope {
+		for _, b := range f.Blocks {
+			for _, in := range b.Instrs {
+				ci, ok := in.(ssa.CallInstruction)
+				if !ok {
+					continue
+				}
+				sc := ci.Common().StaticCallee()
+				if sc == nil || isPike(sc) {
+					continue
+				}
+				n++
+				switch sc.String() {
+				case "encoding/json.Unmarshal":
+					whole++
+				case "(*encoding/json.Decoder).Decode", "encoding/json.NewDecoder":
+					bad = append(bad, fmt.Sprintf("%s: %s decodes with a json stream decoder, which stops after the first complete value: a header block damaged behind it is accepted, and the record is served as a hit with headers missing instead of being a miss", c.P.pos(in.Pos()), funcName(f)))
+				}
+			}
+		}
+	}
+	if whole == 0 && len(bad) == 0 {
+		c.undecided("decoders-whole-input", "decoders", "-", "the header block's decoder was not recognised")
+		return
+	}
+	sort.Strings(bad)
+	c.check(len(bad) == 0, "decoders-whole-input", "decoders", "cache/http_response.go", fmt.Sprintf("%d library calls in the record decoders; the header block is decoded by json.Unmarshal, which rejects trailing bytes", n), strings.Join(uniq(bad), " || "), n)
+}
+
+// ruleRequestHeaderWrites: the client's request header is edited by the proxy
+// handler (and the location's add-header step it calls) only.
+func ruleRequestHeaderWrites(c *Ctx) {
+	isReqHeader := func(v ssa.Value) bool {
+		u, ok := v.(*ssa.UnOp)
+		if !ok {
+			return false
+		}
+		fa, ok := u.X.(*ssa.FieldAddr)
+		if !ok {
+			return false
+		}
+		return strings.HasSuffix(fa.X.Type().String(), "net/http.Request") && fieldOf(fa.X.Type(), fa.Field).Name() == "Header"
+	}
+	proxy := c.P.Func("server", "NewProxy")
+	allowedRoot := func(f *ssa.Function) bool {
+		for g := f; g != nil; g = g.Parent() {
+			if g == proxy {
+				return true
+			}
+		}
+		return inPkg(f, "location")
+	}
+	var origin func(v ssa.Value, f *ssa.Function, d int) (bool, *ssa.Function)
+	origin = func(v ssa.Value, f *ssa.Function, d int) (bool, *ssa.Function) {
+		if d > 3 {
+			return false, nil
+		}
+		if isReqHeader(v) {
+			return true, f
+		}
+		switch x := v.(type) {
+		case *ssa.Phi:
+			for _, e := range x.Edges {
+				if ok, g := origin(e, f, d+1); ok {
+					return ok, g
+				}
+			}
+		case *ssa.Parameter:
+			for i, p := range f.Params {
+				if p != x {
+					continue
+				}
+				for _, g := range c.P.allFuncs {
+					for _, b := range g.Blocks {
+						for _, in := range b.Instrs {
+							if ci, ok := in.(ssa.CallInstruction); ok && ci.Common().StaticCallee() == f && !ci.Common().IsInvoke() && i < len(ci.Common().Args) {
+								if ok, h := origin(ci.Common().Args[i], g, d+1); ok {
+									return ok, h
+								}
+							}
+						}
+					}
+				}
+			}
+		}
+		return false, nil
+	}
+	n := 0
+	bad := []string{}
+	for _, f := range c.P.allFuncs {
+		for _, b := range f.Blocks {
+			for _, in := range b.Instrs {
+				var recv ssa.Value
+				what := ""
+				switch x := in.(type) {
+				case ssa.CallInstruction:
+					sc := x.Common().StaticCallee()
+					if sc == nil || len(x.Common().Args) == 0 {
+						continue
+					}
+					switch sc.String() {
+					case "(net/http.Header).Set", "(net/http.Header).Del", "(net/http.Header).Add":
+						recv, what = x.Common().Args[0], sc.Name()
+					}
+				case *ssa.MapUpdate:
+					if strings.HasSuffix(x.Map.Type().String(), "net/http.Header") {
+						recv, what = x.Map, "map update"
+					}
+				}
+				if recv == nil {
+					continue
+				}
+				isReq, where := origin(recv, f, 0)
+				if !isReq {
+					continue
+				}
+				n++
+				if !allowedRoot(where) {
+					bad = append(bad, fmt.Sprintf("%s: %s edits the client's request header (%s) outside the proxy step: what the negotiation, the fresh check and the key see is no longer what the client sent (a protocol-version test deleting Accept-Encoding makes the version an input of the decision table)", c.P.pos(in.Pos()), funcName(f), what))
+				}
+			}
+		}
+	}
+	if n < 3 {
+		c.undecided("request-header-writes", "pike", "-", fmt.Sprintf("only %d edits of the request header found (expected the proxy's withhold/restore and override)", n))
+		return
+	}
+	sort.Strings(bad)
+	c.check(len(bad) == 0, "request-header-writes", "pike", "server/proxy.go", fmt.Sprintf("%d edits of the client's request header, all in the proxy handler or the location step it calls", n), strings.Join(uniq(bad), " || "), n)
+}
+
+// ruleRewriteOrdered: the rewriter keeps and walks its rules in a slice (the
+// configured order), never in a map.
+func ruleRewriteOrdered(c *Ctx) {
+	gen := c.P.Func("location", "generateURLRewriter")
+	if gen == nil {
+		c.undecided("rewrite-ordered", "location.generateURLRewriter", "-", "not found")
+		return
+	}
+	scope := staticScope(gen, "location", 2)
+	for _, rf := range returnedFuncs(gen) {
+		for f := range staticScope(rf, "location", 2) {
+			scope[f] = true
+		}
+	}
+	n := 0
+	bad := []string{}
+	for f := range scope {
+		for _, b := range f.Blocks {
+			for _, in := range b.Instrs {
+				if r, ok := in.(*ssa.Range); ok {
+					n++
+					if _, isMap := r.X.Type().Underlying().(*types.Map); isMap {
+						bad = append(bad, fmt.Sprintf("%s: %s walks a map: the order is random on every call, so rules whose result depends on the configured order (and chained rules) rewrite one path differently from request to request", c.P.pos(r.Pos()), funcName(f)))
+					}
+				}
+				if _, ok := in.(*ssa.Next); ok {
+					n++
+				}
+				if ia, ok := in.(*ssa.IndexAddr); ok {
+					_ = ia
+					n++
+				}
+			}
+		}
+	}
+	if n == 0 {
+		c.undecided("rewrite-ordered", funcName(gen), c.P.pos(gen.Pos()), "no loop over the rules found")
+		return
+	}
+	sort.Strings(bad)
+	c.check(len(bad) == 0, "rewrite-ordered", funcName(gen), c.P.pos(gen.Pos()), "the rules are kept and applied in a slice, in the configured order (no map iteration)", strings.Join(uniq(bad), " || "), n)
+}
+
+// ruleStatusListSizedBySource: a list written back into the configuration by
+// the admin view is allocated with the length of the list it replaces.
+func ruleStatusListSizedBySource(c *Ctx) {
+	n := 0
+	bad := []string{}
+	for _, f := range c.P.allFuncs {
+		if !inPkg(f, "server") {
+			continue
+		}
+		for _, b := range f.Blocks {
+			for _, in := range b.Instrs {
+				ms, ok := in.(*ssa.MakeSlice)
+				if !ok {
+					continue
+				}
+				sl, ok := ms.Type().Underlying().(*types.Slice)
+				if !ok {
+					continue
+				}
+				nt, ok := sl.Elem().(*types.Named)
+				if !ok || nt.Obj().Pkg() == nil || nt.Obj().Pkg().Path() != pkgPath("config") {
+					continue
+				}
+				// where is it stored
+				var dest *types.Var
+				var walk func(v ssa.Value, d int)
+				walk = func(v ssa.Value, d int) {
+					if d > 3 || v.Referrers() == nil {
+						return
+					}
+					for _, r := range *v.Referrers() {
+						switch x := r.(type) {
+						case *ssa.Store:
+							if x.Val == v {
+								if fa, ok := x.Addr.(*ssa.FieldAddr); ok {
+									dest = fieldOf(fa.X.Type(), fa.Field)
+								}
+							}
+						case *ssa.Phi:
+							walk(x, d+1)
+						case *ssa.Slice:
+							walk(x, d+1)
+						}
+					}
+				}
+				walk(ms, 0)
+				if dest == nil {
+					continue
+				}
+				n++
+				srcOK := false
+				if call, ok := ms.Len.(*ssa.Call); ok {
+					if bi, ok := call.Call.Value.(*ssa.Builtin); ok && bi.Name() == "len" {
+						if fv := configFieldOf(call.Call.Args[0], 0); fv == dest {
+							srcOK = true
+						}
+					}
+				}
+				if !srcOK {
+					bad = append(bad, fmt.Sprintf("%s: %s allocates the replacement for the configuration's %s with a length that is not len() of that list: read back through the admin API the list has phantom empty entries, or filling it indexes past its end (after the save has already been written)", c.P.pos(ms.Pos()), funcName(f), dest.Name()))
+				}
+			}
+		}
+	}
+	if n == 0 {
+		c.undecided("annotated-list-sized-by-source", "server/admin.go", "-", "no list of configuration entries is rebuilt in package server")
+		return
+	}
+	sort.Strings(bad)
+	c.check(len(bad) == 0, "annotated-list-sized-by-source", "server/admin.go", "server/admin.go", fmt.Sprintf("%d lists of configuration entries rebuilt by the admin view, each allocated with the length of the list it replaces", n), strings.Join(uniq(bad), " || "), n)
+}
+
+// ruleProxyErrors5xx: every error the proxy step makes up itself carries a 5xx status.
+func ruleProxyErrors5xx(c *Ctx) {
+	proxy := c.P.Func("server", "NewProxy")
+	if proxy == nil {
+		c.undecided("proxy-errors-5xx", "server.NewProxy", "-", "not found")
+		return
+	}
+	scope := pikeScope([]*ssa.Function{proxy}, 3)
+	n := 0
+	bad := []string{}
+	check := func(f *ssa.Function, in ssa.Instruction, code ssa.Value) {
+		k, ok := code.(*ssa.Const)
+		if !ok || k.Value == nil || k.Value.Kind() != constant.Int {
+			return
+		}
+		n++
+		v, _ := constant.Int64Val(k.Value)
+		if v < 500 || v > 599 {
+			bad = append(bad, fmt.Sprintf("%s: %s makes up an error with status %d in the proxy step: a failure to reach any healthy upstream (whose error wraps no cause, so it compares equal to a nil context error) is reported to the client as a %dxx instead of a 5xx", c.P.pos(in.Pos()), funcName(f), v, v/100))
+		}
+	}
+	for f := range scope {
+		if !inPkg(f, "server") {
+			continue
+		}
+		for _, b := range f.Blocks {
+			for _, in := range b.Instrs {
+				ci, ok := in.(ssa.CallInstruction)
+				if !ok {
+					continue
+				}
+				sc := ci.Common().StaticCallee()
+				if sc == nil {
+					continue
+				}
+				if inPkg(sc, "util") && sc.Name() == "NewError" && len(ci.Common().Args) == 2 {
+					check(f, in, ci.Common().Args[1])
+				}
+				if sc.Pkg != nil && strings.HasSuffix(sc.Pkg.Pkg.Path(), "vicanso/hes") && strings.Contains(sc.Name(), "StatusCode") && len(ci.Common().Args) >= 2 {
+					check(f, in, ci.Common().Args[1])
+				}
+			}
+		}
+	}
+	if n == 0 {
+		c.undecided("proxy-errors-5xx", funcName(proxy), c.P.pos(proxy.Pos()), "the proxy step makes up no error with a constant status (expected the timeout translation)")
+		return
+	}
+	sort.Strings(bad)
+	c.check(len(bad) == 0, "proxy-errors-5xx", funcName(proxy), c.P.pos(proxy.Pos()), fmt.Sprintf("%d errors made up in the proxy step, all with a 5xx status", n), strings.Join(uniq(bad), " || "), n)
 }
